@@ -7,6 +7,7 @@ CONSTANT MaxCache = 1000000
 CONSTANT MaxGet = 1000000
 CONSTANT Deletes = TRUE
 CONSTANT Split = TRUE
+CONSTANT Conflicts = FALSE
 CONSTANT MaxSteps = 1000000
 SPECIFICATION CSpec
 CONSTRAINT CProgress
